@@ -199,3 +199,26 @@ package revision
 //@   invariant [C17:installed-counts-down] installed + len(missing) == found
 //@ loop range self.Dependencies #1
 //@   invariant [C17:checked-so-far] len(invalidDeps) == 0 ==> forall j :: 0 <= j && j < done ==> DEPOK(self.Dependencies[j], $dag.GetNode(self.Dependencies[j].Package)[0])
+
+// C15 (image backend): the stream handed to the parser is the tar entry named exactly
+// package.yaml (no nested or look-alike path) of the image fetched for the revision's own
+// source; the tarball is the single layer annotated as xpkg base (an image with two is
+// refused), or - only when no layer is annotated - the validated, flattened image.
+//@ macro BASE(l) = ("io.crossplane.xpkg" in l.Annotations) && l.Annotations["io.crossplane.xpkg"] == "base"
+
+//@ func (*revision.ImageBackend).Init
+//@ props C15
+//@ requires i != nil && i.fetcher != nil
+//@ let $hdr = result (*tar.Reader).Next
+//@ let $img = result (xpkg.Fetcher).Fetch
+//@ let $manifest = result (v1.Image).Manifest
+//@ ensures [C15:stream-is-the-entry-named-package-yaml] err == nil ==> $hdr != nil && $hdr.Name == "package.yaml"
+//@ site (xpkg.Fetcher).Fetch(_, _, $ref, $secrets...)
+//@   assert [C15:image-fetched-for-the-revision-source] $ref == name.ParseReference(n.pr.GetSource(), name.WithDefaultRegistry(i.registry))[0]
+//@ site (v1.Image).LayerByDigest($im, $d)
+//@   assert [C15:layer-of-the-fetched-image-annotated-as-base] $im == $img && BASE(l) && $d == l.Digest
+//@ site mutate.Extract($im)
+//@   assert [C15:flattened-only-without-an-annotated-layer] !foundAnnotated && $im == $img
+//@ loop range manifest.Layers
+//@   invariant [C15:at-most-one-base-layer] (!foundAnnotated && forall j :: 0 <= j && j < done ==> !BASE($manifest.Layers[j]))
+//@        || (foundAnnotated && exists k :: 0 <= k && k < done && BASE($manifest.Layers[k]) && forall j :: 0 <= j && j < done && j != k ==> !BASE($manifest.Layers[j]))
